@@ -131,6 +131,35 @@ type KeepCtl struct {
 	n       int
 	held    chan struct{}
 	release chan struct{}
+	// lease revocation: HoldRevoke makes the next LeaseRevoke call return only after ReleaseRevoke (etcd has
+	// applied the revocation by then: the caller is inside lease.Close())
+	holdRev bool
+	revHeld chan struct{}
+	revRel  chan struct{}
+}
+
+func (k *KeepCtl) HoldRevoke() {
+	k.mu.Lock()
+	k.holdRev = true
+	k.mu.Unlock()
+}
+func (k *KeepCtl) RevokeHeld() <-chan struct{} { return k.revHeld }
+func (k *KeepCtl) ReleaseRevoke()              { k.revRel <- struct{}{} }
+
+func (k *KeepCtl) interceptUnary(ctx context.Context, method string, req, reply interface{}, cc *grpc.ClientConn, invoker grpc.UnaryInvoker, opts ...grpc.CallOption) error {
+	err := invoker(ctx, method, req, reply, cc, opts...)
+	if method != "/etcdserverpb.Lease/LeaseRevoke" {
+		return err
+	}
+	k.mu.Lock()
+	h := k.holdRev
+	k.holdRev = false
+	k.mu.Unlock()
+	if h {
+		k.revHeld <- struct{}{}
+		<-k.revRel
+	}
+	return err
 }
 
 func (k *KeepCtl) Hold() {
@@ -188,8 +217,8 @@ func (k *KeepCtl) intercept(ctx context.Context, desc *grpc.StreamDesc, cc *grpc
 
 // NewClientKeep is NewClient plus control over the client's lease keep-alive responses.
 func (e *Etcd) NewClientKeep() (*clientv3.Client, *CtlKV, *KeepCtl, error) {
-	k := &KeepCtl{held: make(chan struct{}, 1), release: make(chan struct{}, 1)}
-	cli, c, err := e.newClient(grpc.WithStreamInterceptor(k.intercept))
+	k := &KeepCtl{held: make(chan struct{}, 1), release: make(chan struct{}, 1), revHeld: make(chan struct{}, 1), revRel: make(chan struct{}, 1)}
+	cli, c, err := e.newClient(grpc.WithStreamInterceptor(k.intercept), grpc.WithUnaryInterceptor(k.interceptUnary))
 	return cli, c, k, err
 }
 
